@@ -758,6 +758,23 @@ func step(o *hx.Outcome, w *W, sy *sys, m *model, k int, op Op, log *[]string, o
 		for _, d := range names {
 			checkOne(o, w, m, k, v, d, sy.goLookup(v, d), "go")
 		}
+		// spelling: class names are case-insensitive on the base VM, so what the base VM defines resolves
+		// through every VM under another letter case too (whatever was looked up, and missed, before)
+		for _, d := range names {
+			if d.Kind != "class" {
+				continue
+			}
+			if _, onBase := m.base[d.Name]; !onBase {
+				continue
+			}
+			if c, ok := sy.vm(v).GetClass(strings.ToLower(d.Name)); !ok || c == nil {
+				vmk := "temp"
+				if v == 0 {
+					vmk = "base"
+				}
+				o.Violate("C12/lost/class/case-variant/"+vmk, fmt.Sprintf("after step %d, vm%d does not resolve %s under the spelling %s although the base VM defines it (history: %s)", k, v, d.Name, strings.ToLower(d.Name), histStr(w, k)))
+			}
+		}
 		// argument form: a fully qualified name with a leading backslash ("\\A", what a run-time string such as
 		// `new $n` or class_exists("\\A") hands over) resolves exactly like the name without it
 		for _, d := range names {
